@@ -62,7 +62,7 @@ chk("C14", "exploration",
 
 chk("C15", "exploration",
     "deterministic simulation: valid archives/packages stored on a simulated disk and damaged by seeded stored-state faults (header columns, magic bytes, truncation, duplicated/reordered/colliding members, byte flips, raw bytes), iterated and loaded repeatedly under tape-chosen disk profiles and map-iteration orders with deterministic step counting; tape minimisation and exact replay",
-    "Checks: no panic; Next is called at most len/60+1 times before EOF or error and the logical step budget is never exhausted; every returned member comes from a header carrying the two magic bytes, has Size>=0 and its reader delivers exactly Size bytes; iterating/loading the same bytes again under another member order gives the same outcome. Sampling of structured corruptions: evidence, not proof; no coverage-guided fuzzing.",
+    "Side part (real execution, -race, beyond the statement): six packages loaded by parallel goroutines from a cold process. Checks: no panic; Next is called at most len/60+1 times before EOF or error and the logical step budget is never exhausted; every returned member comes from a header carrying the two magic bytes, has Size>=0 and its reader delivers exactly Size bytes; iterating/loading the same bytes again under another member order gives the same outcome. Sampling of structured corruptions: evidence, not proof; no coverage-guided fuzzing.",
     "Trusted: io.SectionReader.Outer to recover header offsets, vinstr's step counters and map-range rewrite. Real code (instrumented copy): deb.LoadAr/Next/parseArEntry, deb.Load.",
     "DESIGN.md §5 C15")
 
